@@ -838,7 +838,7 @@ where
         if let Some(max) = self.max_capacity {
             if new_weight as u64 > max {
                 // The candidate is too big to fit in the cache. Reject it.
-                self.cache.remove(&Arc::clone(&kh.key));
+                self.remove_candidate(&kh.key, &entry);
                 return;
             }
         }
@@ -855,8 +855,13 @@ where
             } => {
                 // Try to remove the victims from the cache (hash map).
                 for victim in victim_nodes {
-                    if let Some((_vic_key, vic_entry)) =
-                        self.cache.remove(unsafe { victim.as_ref().element.key() })
+                    // Remove the victim only when the entry in the map is the one
+                    // that owns this node. The key may have been invalidated and
+                    // inserted again since the node was created.
+                    let vic_elem = unsafe { &victim.as_ref().element };
+                    if let Some((_vic_key, vic_entry)) = self
+                        .cache
+                        .remove_if(vic_elem.key(), |_, v| v.has_entry_info(vic_elem.entry_info()))
                     {
                         // And then remove the victim from the deques.
                         Self::handle_remove(deqs, vic_entry, counters);
@@ -875,7 +880,7 @@ where
             AdmissionResult::Rejected { skipped_nodes: s } => {
                 skipped_nodes = s;
                 // Remove the candidate from the cache (hash map).
-                self.cache.remove(&Arc::clone(&kh.key));
+                self.remove_candidate(&kh.key, &entry);
             }
         };
 
@@ -884,6 +889,13 @@ where
         for node in skipped_nodes {
             unsafe { deqs.probation.move_to_back(node) };
         }
+    }
+
+    /// Removes the rejected candidate from the cache (hash map), but only when the
+    /// map still holds the very entry this write op was created for. The key may
+    /// have been updated or re-inserted while the op was waiting in the queue.
+    fn remove_candidate(&self, key: &Arc<K>, entry: &TrioArc<ValueEntry<K, V>>) {
+        self.cache.remove_if(key, |_, v| TrioArc::ptr_eq(v, entry));
     }
 
     /// Performs size-aware admission explained in the paper:
